@@ -63,6 +63,8 @@ def shapes(rng, nparts, complex_idx, ctx):
     def val_for(i, tag):
         if i == complex_idx:
             return {"a": "A" + tag, "b": 7}, "cx:" + tag
+        if rng.random() < 0.25:
+            return rng.choice([(0, "0"), ("", "")])      # falsy values are values
         return "v" + tag, "v" + tag
     # scalars
     out.append(("sv", {"scalar": "sv"}, None))
